@@ -1,7 +1,7 @@
 (* C07 property theorems: statements + `exact lemma` only.
    External behaviour (covert policy function of C06, liveness probe, phantom selection, transport
    parameter handling, GeoIP) is universally quantified. *)
-From CJ Require Import Common.Base C06.Model C07.Model C07.Proofs.
+From CJ Require Import Common.Base C06.Model C07.Model C07.Proofs C07.ModelLive C07.ProofsLive.
 
 (* A draft registration handed to ingest is announced to the detector iff it is complete, its transport
    is enabled, its phantom is not blocklisted, it is not already tracked, its covert passes the covert
@@ -201,3 +201,133 @@ Theorem C07_if_direction_partial :
     exists r', In (Announce r') (snd (process select params_ok dst_port geoip_ok covert_check live cfg st w)).
 Proof. exact if_direction_partial. Qed.
 Print Assumptions C07_if_direction_partial.
+
+(* ================================================================== the liveness verdict through the tester stack
+   ModelLive.v: ingestRegistration over a STATEFUL tester whose answer is (verdict, error class); `Probe` in the effect
+   list of ingest_l is a NETWORK probe.  First for any tester (any state type, any PhantomIsLive), then for the tester
+   liveness.New builds -- C18's model of the live / non-live caches (map or LRU) over the network probe -- across
+   histories of registrations, clock advances and ClearExpired sweeps that share one tester, table and counters. *)
+
+(* The stateful ingest IS the verdict-function ingest of Model.v run with "the verdict the tester gives in its current
+   state"; the tester is consulted (state, counters moved) exactly when a verdict is required; network probes are the
+   consultations for which the tester sent one.  Every theorem above therefore holds with live := verdict_now. *)
+Theorem C07_stack_refines_verdict_model :
+  forall T ask covert_check cfg (w : world T) r,
+    ingest_l T ask covert_check cfg w r =
+    let '(st', ef) := ingest covert_check (verdict_now T ask (wd_tester w)) cfg (wd_table w) r in
+    match (if probe_required covert_check cfg (wd_table w) r then r_phantom r else None) with
+    | Some ip => let '(t1, a, sent) := ask (wd_tester w) ip (r_port r) in
+                 (Build_world st' t1 (bump (wd_cnt w) a), strip_probes sent ef, [(ip, r_port r, a, sent)])
+    | None => (Build_world st' (wd_tester w) (wd_cnt w), ef, [])
+    end.
+Proof. exact ingest_l_spec. Qed.
+Print Assumptions C07_stack_refines_verdict_model.
+
+(* Admission over any tester: announced iff complete, transport enabled, phantom not blocklisted, not yet tracked, covert
+   passes, and (IPv4 phantom not pre-scanned => the VERDICT the tester gives at that moment is not-live). *)
+Theorem C07_stack_announced_iff_admissible :
+  forall T ask covert_check cfg (w : world T) r,
+    (exists r', In (Announce r') (snd (fst (ingest_l T ask covert_check cfg w r)))) <->
+    admissible covert_check (verdict_now T ask (wd_tester w)) cfg (wd_table w) r = true.
+Proof. exact stack_announce_iff. Qed.
+Print Assumptions C07_stack_announced_iff_admissible.
+
+(* ... WHATEVER the error class says: testers that agree on state, verdict and probes sent, and differ arbitrarily in
+   the error they return (nil, ErrCachedPhantom, NotLive, ErrLiveHost, a network error), admit exactly the same. *)
+Theorem C07_error_class_irrelevant :
+  forall T (ask1 ask2 : T -> ipraw -> N -> T * answer * bool) covert_check cfg (w : world T) r,
+    same_but_error ask1 ask2 ->
+    let x1 := ingest_l T ask1 covert_check cfg w r in let x2 := ingest_l T ask2 covert_check cfg w r in
+    wd_table (fst (fst x1)) = wd_table (fst (fst x2)) /\ wd_tester (fst (fst x1)) = wd_tester (fst (fst x2)) /\
+    snd (fst x1) = snd (fst x2).
+Proof. exact error_class_irrelevant. Qed.
+Print Assumptions C07_error_class_irrelevant.
+
+Theorem C07_stack_share_iff_due :
+  forall T ask covert_check cfg (w : world T) r s,
+    In (Share s) (snd (fst (ingest_l T ask covert_check cfg w r))) <->
+    share_due covert_check (verdict_now T ask (wd_tester w)) cfg (wd_table w) r = true /\ generate_c2s_wrapper r = Some s.
+Proof. exact stack_share_iff. Qed.
+Print Assumptions C07_stack_share_iff_due.
+
+(* the tester is consulted iff a verdict is required (not for IPv6, not for pre-scanned, not when an earlier condition
+   failed): once, for the registration's phantom and port; otherwise its state and the counters do not move *)
+Theorem C07_stack_consulted_iff_required :
+  forall T ask covert_check cfg (w : world T) r,
+    (probe_required covert_check cfg (wd_table w) r = true ->
+       exists ip, r_phantom r = Some ip /\
+         let '(t1, a, sent) := ask (wd_tester w) ip (r_port r) in
+         snd (ingest_l T ask covert_check cfg w r) = [(ip, r_port r, a, sent)] /\
+         wd_tester (fst (fst (ingest_l T ask covert_check cfg w r))) = t1 /\
+         wd_cnt (fst (fst (ingest_l T ask covert_check cfg w r))) = bump (wd_cnt w) a) /\
+    (probe_required covert_check cfg (wd_table w) r = false ->
+       snd (ingest_l T ask covert_check cfg w r) = [] /\
+       wd_tester (fst (fst (ingest_l T ask covert_check cfg w r))) = wd_tester w /\
+       wd_cnt (fst (fst (ingest_l T ask covert_check cfg w r))) = wd_cnt w).
+Proof. exact stack_consulted_iff. Qed.
+Print Assumptions C07_stack_consulted_iff_required.
+
+(* ---- histories over the real stack (lc: liveness configuration, h: history) ---- *)
+
+(* the station's tester after h is C18's tester after the operations h performed on it: C18's theorems apply *)
+Theorem C07_history_tester_is_C18 :
+  forall select params_ok dst_port geoip_ok covert_check cfg lc h,
+    wd_tester (world_after select params_ok dst_port geoip_ok covert_check cfg lc h) =
+    L18.after lc (lops_of select params_ok dst_port geoip_ok covert_check cfg lc h).
+Proof. exact tester_reachable. Qed.
+Print Assumptions C07_history_tester_is_C18.
+
+Theorem C07_history_stack_visible_eq_announced :
+  forall select params_ok dst_port geoip_ok covert_check cfg lc h,
+    visible_all (wd_table (world_after select params_ok dst_port geoip_ok covert_check cfg lc h)) =
+    announced_regs (effects_of select params_ok dst_port geoip_ok covert_check cfg lc h).
+Proof. exact history_visible_eq_announced. Qed.
+Print Assumptions C07_history_stack_visible_eq_announced.
+
+(* A registration (any client, any secret) whose IPv4 phantom is known live from the cache -- after ANY history --
+   has no effect at all: no network probe, not shared, not announced; lookups are unchanged. *)
+Theorem C07_cached_live_never_admitted :
+  forall select params_ok dst_port geoip_ok covert_check cfg lc h r pl pe ip,
+    let w := world_after select params_ok dst_port geoip_ok covert_check cfg lc h in
+    r_phantom r = Some ip -> needs_probe r = true ->
+    P18.fresh_on true (wd_tester w) (addr_key ip) ->
+    snd (fst (ingest_l L18.st (stack_ask pl pe) covert_check cfg w r)) = [] /\
+    visible_all (wd_table (fst (fst (ingest_l L18.st (stack_ask pl pe) covert_check cfg w r)))) = visible_all (wd_table w).
+Proof. exact cached_live_never_admitted. Qed.
+Print Assumptions C07_cached_live_never_admitted.
+
+(* A network probe is sent iff a verdict is required and neither cache holds a fresh verdict for the phantom. *)
+Theorem C07_network_probe_only_on_cache_miss :
+  forall select params_ok dst_port geoip_ok covert_check cfg lc h r pl pe ip port,
+    let w := world_after select params_ok dst_port geoip_ok covert_check cfg lc h in
+    In (Probe ip port) (snd (fst (ingest_l L18.st (stack_ask pl pe) covert_check cfg w r))) <->
+    probe_required covert_check cfg (wd_table w) r = true /\ r_phantom r = Some ip /\ port = r_port r /\
+    ~ P18.fresh_on true (wd_tester w) (addr_key ip) /\ ~ P18.fresh_on false (wd_tester w) (addr_key ip).
+Proof. exact network_probe_iff. Qed.
+Print Assumptions C07_network_probe_only_on_cache_miss.
+
+(* An admitted registration that needed a verdict got "not live" either from a network probe sent for it now, or from
+   the most recent measurement of that address, made less than the non-live lifetime ago (C18_served_only_fresh). *)
+Theorem C07_admitted_verdict_provenance :
+  forall select params_ok dst_port geoip_ok covert_check cfg lc h r pl pe ip r',
+    let w := world_after select params_ok dst_port geoip_ok covert_check cfg lc h in
+    In (Announce r') (snd (fst (ingest_l L18.st (stack_ask pl pe) covert_check cfg w r))) ->
+    needs_probe r = true -> r_phantom r = Some ip ->
+    (pl = false /\ In (Probe ip (r_port r)) (snd (fst (ingest_l L18.st (stack_ask pl pe) covert_check cfg w r)))) \/
+    (exists g ttl, L18.last_measured (L18.trace lc (lops_of select params_ok dst_port geoip_ok covert_check cfg lc h)) (addr_key ip) = Some (false, g) /\
+                   L18.dur_nonlive lc = Some ttl /\ (Z.of_N g < ttl)%Z).
+Proof. exact admitted_verdict_provenance. Qed.
+Print Assumptions C07_admitted_verdict_provenance.
+
+(* The station's liveness counters after any history: every verdict the tester gave is counted exactly once
+   (pass = not-live verdicts, fail = live verdicts, cached = live verdicts that came with ErrCachedPhantom). *)
+Theorem C07_history_counters_once :
+  forall select params_ok dst_port geoip_ok covert_check cfg lc h,
+    let c := wd_cnt (world_after select params_ok dst_port geoip_ok covert_check cfg lc h) in
+    let l := asked_of select params_ok dst_port geoip_ok covert_check cfg lc h in
+    n_pass c = cnt (fun a => negb (a_live a)) l /\
+    n_fail c = cnt a_live l /\
+    n_cached c = cnt (fun a => a_live a && (a_err a =? err_cached)) l /\
+    n_pass c + n_fail c = N.of_nat (length l).
+Proof. exact history_counters. Qed.
+Print Assumptions C07_history_counters_once.
